@@ -198,7 +198,9 @@ def run(ctx):
             raise common.Infra("base session %s produced no server stream" % sc["id"])
         step = 1 if (thorough or n <= 400) else 2
         for k in range(0, n, step):
-            for kind in ("eof", "ioerr", "corrupt", "bitflip"):
+            for kind in ("eof", "ioerr", "corrupt", "bitflip", "lowzero"):
+                # (lowzero: the five low bits of the byte cleared - an item head keeps its type and becomes its empty form:
+                # a payload map cut down to an empty map, an empty string, the integer 0; the message stays well-formed)
                 if kind == "ioerr" and not thorough and k % 3:
                     continue
                 scen.append(dict(sc, id="%s@%d/%s" % (sc["id"], k, kind), fault=dict(kind=kind, at=k)))
@@ -207,7 +209,7 @@ def run(ctx):
             # wrong type), the low bits change lengths and values.  Thorough: all of them at every offset; quick: the
             # top bit everywhere and one more per offset, rotating with the offset and the seed.
             masks = (0x80, 0x40, 0x20, 0x10, 0x08, 0x04, 0x02) if thorough else \
-                ((0x80, (0x40, 0x20, 0x10, 0x08, 0x04, 0x02)[(k // 2 + ctx.seed) % 6]) if k % 2 == 0 else (0x80,))
+                ((0x80, (0x40, 0x20, 0x10, 0x08, 0x04, 0x02)[(k // 3 + ctx.seed) % 6]) if k % 3 == 0 else (0x80,))
             for mk in masks:
                 scen.append(dict(sc, id="%s@%d/bit%02x" % (sc["id"], k, mk), fault=dict(kind="bitflip", at=k, mask=mk)))
         # the client's writes fail from position i on
